@@ -4,6 +4,10 @@ import json, subprocess
 
 # id -> (technique, level text, level note, design ref)
 CHECKS = {
+ "C11": ("Go race detector over a concurrent workload (race-instrumented worker processes, reports counted and de-duplicated) + serial-result comparison of every concurrent Execute + porcupine v1.3.0 linearizability check of recorded register histories (globals, development-mode templates)",
+         "Exploration: rounds of 16-32 goroutines issuing random GetTemplate/Parse/Execute/AddGlobal/LookupGlobal/loader-edit operations on one Set, with colliding first-time loads, struct types minted per execution (field-cache writes concurrent with reads), ranger pools, includes (cache puts during execution) and a recording loader/cache that yields or sleeps inside every call. Deciding observations: race-detector reports, fatal errors, every concurrent output versus the output computed alone, and linearizability of the timed write/read history per key.",
+         "Covers the interleavings the scheduler produced (the evidence counts overlapping operation pairs and colliding first loads), not all interleavings; porcupine timeouts and rounds without overlap are inconclusive, not held.",
+         "DESIGN.md 3/C11"),
  "C18": ("differential twins: the same program written with custom functions calling the Runtime/Arguments API and with template syntax must render identically (output, errors, block rendering log)",
          "Exploration: random programs whose operations are emitted twice (Let/Set/SetOrLet/LetGlobal/Resolve/Context/YieldBlock from jet.Funcs versus :=, =, identifiers, '.', yield) nested in if, range, block definitions, includes and try; LetGlobal'd names are read right after the call, after the enclosing constructs ended and at the end; call shapes (plain, piped, slot at every index) given to a reflected function and to jet.Funcs reading Get, NumOfArguments, IsSet and ParseInto.",
          "Let twins only where the enclosing list already opened a scope; block bodies use names of their own (dynamic block scoping is a design choice outside the statement); YieldBlock on parameterless blocks.",
